@@ -23,3 +23,7 @@ M("ad-module-state", "benchmarks.py", "def quartic(x: NDArrayFloat) -> float:", 
   note="seeded change C19-b: value depends on module-level state")
 Q("ad-pure-helper", "benchmarks.py", "def quartic(x: NDArrayFloat) -> float:", "def _weights(n):\n    return np.arange(1, n + 1)\n\n\ndef quartic(x: NDArrayFloat) -> float:",
   ["AD"], also=[("benchmarks.py", "    return (np.arange(1, ndim + 1) * np.power(x, 4)).sum()\n", "    return (_weights(ndim) * np.power(x, 4)).sum()\n")])
+
+# ---- ARRLIKE (round 3)
+M("arrlike-raw-product", "benchmarks.py", "    return 2 * np.asarray(x)\n", "    return 2 * x\n", ["ARRLIKE"], canary=True)
+Q("arrlike-convert-first", "benchmarks.py", "    return 2 * np.asarray(x)\n", "    x = np.asarray(x)\n    return 2 * x\n", ["ARRLIKE", "AD"])
